@@ -1,5 +1,6 @@
 import SpecKitV.Props.C14
 import SpecKitV.Lemmas.AnalyzerGlue
+import SpecKitV.Props.ConfigGlueGen
 
 #print axioms Par.prange_any_schedule
 #print axioms Par.prange_schedules_agree
@@ -15,3 +16,25 @@ import SpecKitV.Lemmas.AnalyzerGlue
 #print axioms Model.lazy_order_perm
 #print axioms Model.lazyGet_cached
 #print axioms Model.coreLoop_eq_map
+#print axioms ConfigGlue.gen_cg_plan_eq_model
+#print axioms ConfigGlue.gen_plan_cached_unchanged
+#print axioms ConfigGlue.gen_step_eq_model
+#print axioms ConfigGlue.gen_run_eq_model
+#print axioms ConfigGlue.gen_history_independent_list
+#print axioms ConfigGlue.gen_history_independent
+#print axioms ConfigGlue.gen_history_dependent_after_failure
+#print axioms ConfigGlue.gen_sched_eq_spec
+#print axioms ConfigGlue.gen_sched_new_ltf
+#print axioms ConfigGlue.gen_sched_callable
+#print axioms ConfigGlue.gen_request_eq_spec
+#print axioms ConfigGlue.gen_request_L_exact
+#print axioms ConfigGlue.gen_request_fres
+#print axioms ConfigGlue.gen_request_fres_not_exact
+#print axioms ConfigGlue.gen_window_eq_spec
+#print axioms ConfigGlue.kaiser_rov_range
+#print axioms ConfigGlue.kaiser_alpha_ge_half
+#print axioms ConfigGlue.gen_window_kaiser
+#print axioms ConfigGlue.gen_window_explicit_olap
+#print axioms ConfigGlue.gen_window_explicit_olap_ok
+#print axioms ConfigGlue.gen_window_final_olap_range_partial
+#print axioms ConfigGlue.gen_window_final_olap_negative
